@@ -308,12 +308,16 @@ def gen(rng, tier, index):
         if small:
             vals = [rng.choice([0, 0, 1, 1, 2, 3, -1]) for _ in range(rng.randint(1, 14))]
             cyc = total <= 300 and rng.random() < 0.5
+            if cyc:
+                vals = [v if v >= 0 else 1 for v in vals]
         else:
             c = rng.choice(sizes) or 2048
             vals = [rng.choice([0, 0, 1, 2, 100, 2046, 2047, 2048, 2049, 4095, max(1, c - 1), c,
                                 max(1, c // 2), -1])
                     for _ in range(rng.randint(1, 14))]
             cyc = rng.random() < 0.3 and min([v for v in vals if v > 0] or [4096]) >= 512
+            if cyc:
+                vals = [v if v >= 0 else 0 for v in vals]
         tapes["send_cap"] = {"v": vals, "cycle": cyc}
     if rng.random() < 0.25:
         tapes["delay"] = [rng.choice([0, 1, 2]) for _ in range(8)]
@@ -511,9 +515,11 @@ def run(scn, full_log=False):
                     probe("buffer_exact_fit")
                 w_before = stream.writing()
                 acc_before = st["acc"]
+                expected.extend(raw)  # write() may hand bytes to the transport before returning
                 try:
                     fut = stream.write(obj)
                 except StreamBufferFullError:
+                    del expected[queued:]
                     st["refused"] += 1
                     outcome.append(("full", size))
                     env.log.ev("w", oi, size, "full")
@@ -532,6 +538,7 @@ def run(scn, full_log=False):
                     checkpoint("after refused write")
                     continue
                 except Exception as e:
+                    del expected[queued:]
                     bad("write.raised", f"write op {oi} ({op.get('kind')}, {size} bytes): "
                         f"{type(e).__name__}: {e}", f"write.raised/{type(e).__name__}")
                     outcome.append(("exc", type(e).__name__))
@@ -542,7 +549,6 @@ def run(scn, full_log=False):
                         f"max_write_buffer_size={mwb}")
                 if size:
                     ends.append((queued, queued + size, size > 2048))
-                expected.extend(raw)
                 queued += size
                 st["accepted_writes"] += 1
                 futs.append((fut, queued, oi, size))
